@@ -353,4 +353,461 @@ Section HyperRefine.
   Proof. destruct t; cbn; tauto. Qed.
   Lemma rslot_set_root t x n : complete (S n) t -> rslot (set_root t x) = x.
   Proof. destruct t; cbn; [tauto|reflexivity]. Qed.
+
+  (* ---------------------------------------------------------------- the walk below the cache *)
+  Hypothesis limit4 : limit mod 4 = 0.
+  Hypothesis nbits4 : nbits mod 4 = 0.
+
+  Section WalkA.
+    Variable st : hstate D V.
+    Notation nodeW := (node D E V H limit nbits ds st).
+    Notation childW := (childf D E V H limit nbits ds st).
+    Notation innerW := (innerf D E V H limit nbits ds st).
+    Notation wr := (wr D V).
+
+    Definition sA0 : hpos -> bt := fun q => tget D V (hs_store D V st) q.
+    Hypothesis store_wf : forall q, complete 5 (sA0 q).
+
+    Definition upd_fun (s : hpos -> bt) (p : hpos) (b : bt) : hpos -> bt := fun q => if hpos_eqb q p then b else s q.
+    Definition ap1 (s : hpos -> bt) (w : wr) : hpos -> bt :=
+      match w with WStore _ _ p b => upd_fun s p b | _ => s end.
+    Definition ap (s : hpos -> bt) (w : list wr) : hpos -> bt := fold_left ap1 w s.
+
+    (* writes of the walk below the cache: store writes only, below the prefix *)
+    Definition wr_ok (pre : list bool) (w : list wr) : Prop :=
+      Forall (fun x => match x with WStore _ _ p b => under pre p /\ complete 5 b | _ => False end) w.
+
+    Lemma hpos_eqb_eq (a b : hpos) : hpos_eqb a b = true <-> a = b.
+    Proof.
+      unfold hpos_eqb. destruct a as [a1 a2], b as [b1 b2]. cbn. rewrite andb_true_iff, Nat.eqb_eq, key_eqb_eq.
+      split; [intros [-> ->]; reflexivity|intros Hq; injection Hq as -> ->; auto].
+    Qed.
+
+    Lemma ap_app s w1 w2 : ap s (w1 ++ w2) = ap (ap s w1) w2.
+    Proof. unfold ap. apply fold_left_app. Qed.
+
+    Lemma ap_frame w : forall s q, (forall p b, In (WStore _ _ p b) w -> p <> q) -> ap s w q = s q.
+    Proof.
+      induction w as [|x w IH]; intros s q Hn; [reflexivity|]. cbn [ap fold_left]. change (fold_left ap1 w (ap1 s x)) with (ap (ap1 s x) w).
+      rewrite IH by (intros p b Hin; apply (Hn p b); right; exact Hin).
+      destruct x as [p b|p b|p b]; cbn [ap1]; try reflexivity. unfold upd_fun.
+      destruct (hpos_eqb q p) eqn:He; [|reflexivity]. apply hpos_eqb_eq in He. subst. exfalso. apply (Hn p b); [left; reflexivity|reflexivity].
+    Qed.
+
+    Lemma wr_ok_not_under pre pre' w q : wr_ok pre w -> under pre' q -> (forall c, is_prefix pre c = true -> is_prefix pre' c = true -> False) ->
+      forall p b, In (WStore _ _ p b) w -> p <> q.
+    Proof.
+      intros Hw Hq Hd p b Hin Heq. subst. unfold wr_ok in Hw. rewrite Forall_forall in Hw. specialize (Hw _ Hin). cbn in Hw.
+      exact (Hd (fst q) (proj1 Hw) Hq).
+    Qed.
+
+    Lemma wr_ok_app pre w1 w2 : wr_ok pre w1 -> wr_ok pre w2 -> wr_ok pre (w1 ++ w2).
+    Proof. intros. apply Forall_app. split; assumption. Qed.
+
+    Lemma wr_ok_weaken pre b w : wr_ok (pre ++ [b]) w -> wr_ok pre w.
+    Proof.
+      unfold wr_ok. rewrite !Forall_forall. intros Hw x Hx. specialize (Hw x Hx). destruct x as [p c|p c|p c]; try exact Hw.
+      destruct Hw as [Hw Hc]. split; [|exact Hc]. unfold under in *. apply (is_prefix_app pre [b]). exact Hw.
+    Qed.
+
+    Lemma load_store pre' h' : h' <= limit -> load D V limit st (pre', h') = sA0 (pre', h').
+    Proof. intros Hl. unfold load, sA0. cbn [snd]. assert (Hb : Nat.ltb limit h' = false) by (apply Nat.ltb_ge; exact Hl). rewrite Hb. reflexivity. Qed.
+
+    (* levels of the subtree of a slot at height h that is not a batch root *)
+    Definition lv (h : nat) : nat := h mod 4 + 1.
+
+    Lemma mod4_pred h' : S h' mod 4 <> 0 -> S h' mod 4 = h' mod 4 + 1.
+    Proof.
+      intros Hn. pose proof (Nat.div_mod (S h') 4 ltac:(lia)). pose proof (Nat.div_mod h' 4 ltac:(lia)).
+      pose proof (Nat.mod_upper_bound (S h') 4 ltac:(lia)). pose proof (Nat.mod_upper_bound h' 4 ltac:(lia)). lia.
+    Qed.
+    Lemma mod4_pred0 h' : S h' mod 4 = 0 -> h' mod 4 = 3.
+    Proof.
+      intros Hn. pose proof (Nat.div_mod (S h') 4 ltac:(lia)). pose proof (Nat.div_mod h' 4 ltac:(lia)).
+      pose proof (Nat.mod_upper_bound (S h') 4 ltac:(lia)). pose proof (Nat.mod_upper_bound h' 4 ltac:(lia)). lia.
+    Qed.
+
+    (* what the walk establishes at one node (h > 0) *)
+    Definition node_spec (h : nat) : Prop :=
+      forall pre L t isroot M,
+        h + length pre = nbits -> h <= limit ->
+        (isroot = true -> h mod 4 = 0) -> (isroot = false -> h mod 4 <> 0) ->
+        complete (if isroot then 5 else lv h) t ->
+        RepA sA0 h pre t M ->
+        L <> [] -> keys_ok pre L -> NoDup (map fst L) -> keys_ok pre M -> NoDup (map fst M) ->
+        exists d t' w, nodeW h false pre L t isroot = Some (d, t', w) /\
+          d = sh h pre (mrg M L) /\
+          complete (if isroot then 5 else lv h) t' /\
+          wr_ok pre w /\
+          RepA (ap sA0 w) h pre t' (mrg M L) /\
+          (isroot = true -> ap sA0 w (pre, h) = t').
+
+    (* ... and at a child slot *)
+    Definition child_spec (h' : nat) : Prop :=
+      forall pre' Lb ct M',
+        h' + length pre' = nbits -> h' <= limit ->
+        complete (lv h') ct ->
+        SlotA sA0 h' pre' ct M' ->
+        keys_ok pre' Lb -> NoDup (map fst Lb) -> keys_ok pre' M' -> NoDup (map fst M') ->
+        exists d ct' w, childW (nodeW h') false h' pre' Lb ct = Some (d, ct', w) /\
+          d = sh h' pre' (mrg M' Lb) /\
+          complete (lv h') ct' /\
+          wr_ok pre' w /\
+          SlotA (ap sA0 w) h' pre' ct' (mrg M' Lb).
+
+    Lemma mrg_cons_ne M x L : mrg M (x :: L) <> [].
+    Proof. unfold mrg. intros Hq. apply app_eq_nil in Hq. destruct Hq as [_ Hq]. discriminate. Qed.
+
+    Lemma shortcut_batch_complete d k v : complete 5 (shortcut_at D V (empty_batch D V) d k v).
+    Proof. cbn. repeat split. Qed.
+
+    Lemma discard_slot h' pre' ct M' : h' <= limit ->
+      SlotA sA0 h' pre' ct M' -> discard D E V H nbits ds ct h' = Some (sh h' pre' M').
+    Proof.
+      intros Hl Hs. unfold SlotA in Hs. unfold discard.
+      destruct (Nat.eqb (h' mod 4) 0) eqn:Hb.
+      - destruct M' as [|x M''].
+        + destruct Hs as [Hn _]. rewrite (all_none_rslot ct Hn), sh_nil. reflexivity.
+        + destruct Hs as [Hr _]. rewrite Hr. reflexivity.
+      - destruct M' as [|[k v] [|y M'']].
+        + apply RepA_nil in Hs. destruct Hs as [Hn _]. rewrite (all_none_rslot ct Hn), sh_nil. reflexivity.
+        + apply RepA_single in Hs. destruct Hs as [(l & r & -> & _) _]. cbn. rewrite (sh_single h' pre' k v Hl). reflexivity.
+        + destruct h' as [|h'']; [cbn in Hb; discriminate|]. apply RepA_node in Hs; [|cbn; lia].
+          destruct Hs as (l & r & -> & _). reflexivity.
+    Qed.
+
+    Lemma ap_single_same s p b : ap s [WStore _ _ p b] p = b.
+    Proof. cbn. unfold upd_fun. rewrite (proj2 (hpos_eqb_eq p p) eq_refl). reflexivity. Qed.
+    Lemma ap_single_other s p b q : q <> p -> ap s [WStore _ _ p b] q = s q.
+    Proof. intros Hn. cbn. unfold upd_fun. destruct (hpos_eqb q p) eqn:He; [apply hpos_eqb_eq in He; contradiction|reflexivity]. Qed.
+
+    Lemma not_under_self pre' h' b : ~ under (pre' ++ [b]) (pre', h').
+    Proof. unfold under. cbn. rewrite is_prefix_longer. discriminate. Qed.
+
+    (* a fresh batch holding one shortcut leaf, hung below an empty slot *)
+    Lemma new_batch_slot h' pre' ct k0 v0 n :
+      h' mod 4 = 0 -> h' <= limit -> complete (S n) ct ->
+      (forall b q, under (pre' ++ [b]) q -> all_none (sA0 q)) ->
+      let d := H (YLeaf v0 (pre', h')) in
+      SlotA (ap sA0 [WStore _ _ (pre', h') (shortcut_at D V (empty_batch D V) d k0 v0)]) h' pre'
+            (set_root ct (Some (SHash _ _ d))) [(k0, v0)].
+    Proof.
+      intros Hb Hl Hc He d. unfold SlotA. rewrite Hb. cbn [Nat.eqb].
+      split. { rewrite (rslot_set_root ct _ n Hc). f_equal. f_equal. symmetry. apply sh_single. exact Hl. }
+      rewrite ap_single_same. apply RepA_single. split.
+      - cbn. eexists. eexists. split; [reflexivity|]. cbn. repeat split.
+      - intros b q Hq. rewrite ap_single_other; [exact (He b q Hq)|].
+        intros ->. exact (not_under_self pre' h' b Hq).
+    Qed.
+
+    Lemma child_of_node h' : (h' = 0 \/ node_spec h') -> child_spec h'.
+    Proof.
+      intros Hnode pre' Lb ct M' Hlen Hlim Hc Hs HkL HnL HkM HnM.
+      destruct Lb as [|[k0 v0] rest].
+      { (* no leaf goes this way *)
+        unfold childf. rewrite (discard_slot h' pre' ct M' Hlim Hs). cbn [option_map].
+        exists (sh h' pre' M'), ct, []. rewrite mrg_nil_r. repeat split; try assumption; constructor. }
+      assert (Hne : mrg M' ((k0, v0) :: rest) <> []) by apply mrg_cons_ne.
+      destruct h' as [|h''].
+      { (* the bottom of the tree: one leaf, in a batch of its own *)
+        assert (Hp : length pre' = nbits) by lia.
+        pose proof (keys_full_le1 pre' _ Hp HkL HnL) as H1. destruct rest as [|y rest]; [|cbn in H1; lia].
+        assert (Hk0 : k0 = pre').
+        { inversion HkL as [|? ? [A1 A2] _]; subst. cbn in *. apply is_prefix_full; [exact A2|lia]. }
+        assert (Hall : forall k v, In (k, v) M' -> k = pre').
+        { intros k v Hin. unfold keys_ok in HkM. rewrite Forall_forall in HkM. destruct (HkM _ Hin) as [A1 A2]. cbn in *.
+          apply is_prefix_full; [exact A2|lia]. }
+        assert (Hm : mrg M' [(k0, v0)] = [(k0, v0)]).
+        { unfold mrg. assert (Hf : filter (fun kv => negb (inb (fst kv) [(k0, v0)])) M' = []).
+          { clear - Hall Hk0. induction M' as [|[k v] M IH]; [reflexivity|]. cbn [filter fst].
+            rewrite (Hall k v (or_introl eq_refl)), <- Hk0. unfold inb. cbn [existsb fst]. rewrite key_eqb_refl. cbn.
+            apply IH. intros k' v' Hin. apply (Hall k' v'). right. exact Hin. }
+          rewrite Hf. reflexivity. }
+        assert (He : forall b q, under (pre' ++ [b]) q -> all_none (sA0 q)).
+        { intros b q Hq. unfold SlotA in Hs. cbn in Hs. destruct M' as [|[k v] M''].
+          - destruct Hs as [_ Hs]. apply Hs. unfold under in *. apply (is_prefix_app pre' [b]). exact Hq.
+          - destruct Hs as [_ Hs]. assert (HM1 : length ((k, v) :: M'') <= 1) by (apply (keys_full_le1 pre'); assumption).
+            destruct M'' as [|z M'']; [|cbn in HM1; lia]. apply RepA_single in Hs. exact (proj2 Hs b q Hq). }
+        unfold childf.
+        exists (H (YLeaf v0 (pre', 0))), (set_root ct (Some (SHash _ _ (H (YLeaf v0 (pre', 0)))))),
+               [WStore _ _ (pre', 0) (shortcut_at D V (empty_batch D V) (H (YLeaf v0 (pre', 0))) k0 v0)].
+        split; [reflexivity|]. rewrite Hm. split; [reflexivity|].
+        split; [apply complete_set_root; exact Hc|].
+        split. { constructor; [|constructor]. split; [unfold under; cbn; apply is_prefix_refl|apply shortcut_batch_complete]. }
+        unfold lv in Hc. cbn in Hc. exact (new_batch_slot 0 pre' ct k0 v0 0 eq_refl Hlim Hc He). }
+      (* h' = S h'' *)
+      assert (Hc' : complete (S (S h'' mod 4)) ct) by (unfold lv in Hc; rewrite Nat.add_1_r in Hc; exact Hc).
+      unfold childf. cbn [Nat.eqb].
+      destruct (Nat.eqb (S h'' mod 4) 0) eqn:Hb.
+      - (* the root of another batch *)
+        apply Nat.eqb_eq in Hb.
+        assert (Hload : load D V limit st (pre', S h'') = sA0 (pre', S h'')) by (apply load_store; exact Hlim).
+        assert (HRroot : RepA sA0 (S h'') pre' (sA0 (pre', S h'')) M').
+        { unfold SlotA in Hs. rewrite Hb in Hs. cbn [Nat.eqb] in Hs. destruct M' as [|x M''].
+          - destruct Hs as [_ Hs]. apply RepA_nil. split; [|exact Hs]. apply Hs. unfold under. cbn. apply is_prefix_refl.
+          - exact (proj2 Hs). }
+        assert (Hrec : exists d t' w, nodeW (S h'') false pre' ((k0, v0) :: rest) (sA0 (pre', S h'')) true = Some (d, t', w) /\
+                  d = sh (S h'') pre' (mrg M' ((k0, v0) :: rest)) /\ complete 5 t' /\ wr_ok pre' w /\
+                  RepA (ap sA0 w) (S h'') pre' t' (mrg M' ((k0, v0) :: rest)) /\ ap sA0 w (pre', S h'') = t').
+        { destruct Hnode as [Hz|Hnode]; [discriminate|].
+          destruct (Hnode pre' ((k0, v0) :: rest) (sA0 (pre', S h'')) true M' Hlen Hlim (fun _ => Hb) ltac:(discriminate)
+                      (store_wf _) HRroot ltac:(discriminate) HkL HnL HkM HnM) as (d & t' & w & E1 & E2 & E3 & E4 & E5 & E6).
+          exists d, t', w. repeat split; try assumption. apply E6. reflexivity. }
+        destruct Hrec as (d & t' & w & E1 & E2 & E3 & E4 & E5 & E6).
+        assert (Hfin : SlotA (ap sA0 w) (S h'') pre' (set_root ct (Some (SHash _ _ d))) (mrg M' ((k0, v0) :: rest))).
+        { unfold SlotA. rewrite Hb. cbn [Nat.eqb]. destruct (mrg M' ((k0, v0) :: rest)) as [|z Z] eqn:Hz; [contradiction|].
+          split; [rewrite (rslot_set_root ct _ (S h'' mod 4)) by exact Hc'; rewrite E2; reflexivity|]. rewrite E6. exact E5. }
+        destruct rest as [|y rest].
+        + destruct (rslot ct) as [sl|] eqn:Hsl.
+          * rewrite Hload, E1. exists d, (set_root ct (Some (SHash _ _ d))), w.
+            repeat split; try assumption. apply complete_set_root; exact Hc.
+          * (* an empty slot: the leaf gets a batch of its own *)
+            assert (HM' : M' = []).
+            { unfold SlotA in Hs. rewrite Hb in Hs. cbn [Nat.eqb] in Hs. destruct M' as [|x M'']; [reflexivity|]. destruct Hs as [Hs _]. congruence. }
+            subst M'. assert (He : forall b q, under (pre' ++ [b]) q -> all_none (sA0 q)).
+            { intros b q Hq. unfold SlotA in Hs. rewrite Hb in Hs. cbn [Nat.eqb] in Hs. apply (proj2 Hs). unfold under in *. apply (is_prefix_app pre' [b]). exact Hq. }
+            exists (H (YLeaf v0 (pre', S h''))), (set_root ct (Some (SHash _ _ (H (YLeaf v0 (pre', S h'')))))),
+                   [WStore _ _ (pre', S h'') (shortcut_at D V (empty_batch D V) (H (YLeaf v0 (pre', S h''))) k0 v0)].
+            split; [reflexivity|]. rewrite mrg_nil_l. split; [symmetry; apply sh_single; exact Hlim|].
+            split; [apply complete_set_root; exact Hc|].
+            split. { constructor; [|constructor]. split; [unfold under; cbn; apply is_prefix_refl|apply shortcut_batch_complete]. }
+            exact (new_batch_slot (S h'') pre' ct k0 v0 (S h'' mod 4) Hb Hlim Hc' He).
+        + rewrite Hload, E1. exists d, (set_root ct (Some (SHash _ _ d))), w.
+          repeat split; try assumption. apply complete_set_root; exact Hc.
+      - (* a slot inside the same batch *)
+        apply Nat.eqb_neq in Hb.
+        destruct Hnode as [Hz|Hnode]; [discriminate|].
+        assert (HR : RepA sA0 (S h'') pre' ct M').
+        { unfold SlotA in Hs. destruct (Nat.eqb (S h'' mod 4) 0) eqn:Hb'; [apply Nat.eqb_eq in Hb'; contradiction|exact Hs]. }
+        destruct (Hnode pre' ((k0, v0) :: rest) ct false M' Hlen Hlim ltac:(discriminate) (fun _ => Hb) Hc HR ltac:(discriminate) HkL HnL HkM HnM)
+          as (d & t' & w & E1 & E2 & E3 & E4 & E5 & _).
+        exists d, t', w. repeat split; try assumption.
+        unfold SlotA. destruct (Nat.eqb (S h'' mod 4) 0) eqn:Hb'; [apply Nat.eqb_eq in Hb'; contradiction|exact E5].
+    Qed.
+
+    Lemma ap_congr w : forall s s' q, s q = s' q -> ap s w q = ap s' w q.
+    Proof.
+      induction w as [|x w IH]; intros s s' q Hq; [exact Hq|]. cbn [ap fold_left].
+      change (fold_left ap1 w (ap1 s x)) with (ap (ap1 s x) w). change (fold_left ap1 w (ap1 s' x)) with (ap (ap1 s' x) w).
+      apply IH. destruct x as [p b|p b|p b]; cbn [ap1]; try exact Hq. unfold upd_fun. destruct (hpos_eqb q p); [reflexivity|exact Hq].
+    Qed.
+
+    Lemma split_eq pre (L : list (key * V)) : split V pre L = (M0 pre L, M1 pre L).
+    Proof. reflexivity. Qed.
+
+    Lemma lv_child_root h' : S h' mod 4 = 0 -> lv h' = 4.
+    Proof. intros Hm. unfold lv. rewrite (mod4_pred0 h' Hm). reflexivity. Qed.
+    Lemma lv_child_inner h' : S h' mod 4 <> 0 -> lv (S h') = S (lv h').
+    Proof. intros Hm. unfold lv. rewrite (mod4_pred h' Hm). lia. Qed.
+
+    Lemma inner_ok h' pre isroot lvs l0 r0 Mx :
+      child_spec h' ->
+      S h' + length pre = nbits -> S h' <= limit ->
+      (isroot = true -> S h' mod 4 = 0) -> (isroot = false -> S h' mod 4 <> 0) ->
+      complete (lv h') l0 -> complete (lv h') r0 ->
+      SlotA sA0 h' (pre ++ [false]) l0 (M0 pre Mx) -> SlotA sA0 h' (pre ++ [true]) r0 (M1 pre Mx) ->
+      keys_ok pre lvs -> NoDup (map fst lvs) -> keys_ok pre Mx -> NoDup (map fst Mx) ->
+      2 <= length (mrg Mx lvs) ->
+      exists d t' w, innerW (nodeW h') false h' pre isroot lvs l0 r0 = Some (d, t', w) /\
+        d = sh (S h') pre (mrg Mx lvs) /\ complete (if isroot then 5 else lv (S h')) t' /\ wr_ok pre w /\
+        RepA (ap sA0 w) (S h') pre t' (mrg Mx lvs) /\ (isroot = true -> ap sA0 w (pre, S h') = t').
+    Proof.
+      intros Hch Hlen Hlim Hr1 Hr2 Hcl Hcr Hsl Hsr HkL HnL HkM HnM H2.
+      assert (Hpl : length pre < nbits) by lia.
+      assert (Hlen' : forall b, h' + length (pre ++ [b]) = nbits) by (intros b; rewrite app_length; cbn; lia).
+      destruct (Hch (pre ++ [false]) (M0 pre lvs) l0 (M0 pre Mx) (Hlen' false) ltac:(lia) Hcl Hsl
+                  (keys_ok_M0 pre lvs Hpl HkL) (nodup_filter_fst lvs _ HnL) (keys_ok_M0 pre Mx Hpl HkM) (nodup_filter_fst Mx _ HnM))
+        as (dl & l1 & w1 & A1 & A2 & A3 & A4 & A5).
+      destruct (Hch (pre ++ [true]) (M1 pre lvs) r0 (M1 pre Mx) (Hlen' true) ltac:(lia) Hcr Hsr
+                  (keys_ok_M1 pre lvs Hpl HkL) (nodup_filter_fst lvs _ HnL) (keys_ok_M1 pre Mx Hpl HkM) (nodup_filter_fst Mx _ HnM))
+        as (dr & r1 & w2 & B1 & B2 & B3 & B4 & B5).
+      unfold innerf. rewrite split_eq, A1, B1. cbv zeta.
+      set (d := H (YNode dr dl (pre, S h'))). set (t3 := BNode D V (Some (SHash D V d)) l1 r1).
+      set (wroot := if isroot then [WStore D V (pre, S h') t3] else []).
+      exists d, t3, (w2 ++ w1 ++ wroot). split; [destruct isroot; reflexivity|].
+      assert (Hd : d = sh (S h') pre (mrg Mx lvs)).
+      { rewrite sh_node by (left; exact H2). rewrite M1_mrg, M0_mrg, <- A2, <- B2. reflexivity. }
+      assert (Hct : complete (if isroot then 5 else lv (S h')) t3).
+      { destruct isroot.
+        - pose proof (lv_child_root h' (Hr1 eq_refl)) as E4. rewrite E4 in A3, B3. unfold t3. cbn [complete]. split; assumption.
+        - rewrite (lv_child_inner h' (Hr2 eq_refl)). unfold t3. cbn [complete]. split; assumption. }
+      assert (Hwroot : wr_ok pre wroot).
+      { unfold wroot. destruct isroot; [|constructor]. constructor; [|constructor]. split; [unfold under; cbn; apply is_prefix_refl|exact Hct]. }
+      assert (Hw : wr_ok pre (w2 ++ w1 ++ wroot)).
+      { apply wr_ok_app; [exact (wr_ok_weaken pre true w2 B4)|]. apply wr_ok_app; [exact (wr_ok_weaken pre false w1 A4)|exact Hwroot]. }
+      (* what a position below one child sees after all the writes *)
+      assert (Hroot_other : forall b q, under (pre ++ [b]) q -> forall p c, In (WStore D V p c) wroot -> p <> q).
+      { intros b q Hq p c Hin Heq. subst. unfold wroot in Hin. destruct isroot; [|destruct Hin]. destruct Hin as [Hin|[]].
+        injection Hin as <- _. exact (not_under_self pre (S h') b Hq). }
+      assert (HviewL : forall q, under (pre ++ [false]) q -> ap sA0 w1 q = ap sA0 (w2 ++ w1 ++ wroot) q).
+      { intros q Hq. rewrite !ap_app. rewrite (ap_frame wroot _ q (Hroot_other false q Hq)).
+        apply ap_congr. symmetry. apply ap_frame.
+        apply (wr_ok_not_under (pre ++ [true]) (pre ++ [false]) w2 q B4 Hq). intros c C1 C2.
+        exact (is_prefix_split pre true false c ltac:(discriminate) C1 C2). }
+      assert (HviewR : forall q, under (pre ++ [true]) q -> ap sA0 w2 q = ap sA0 (w2 ++ w1 ++ wroot) q).
+      { intros q Hq. rewrite !ap_app. rewrite (ap_frame wroot _ q (Hroot_other true q Hq)).
+        symmetry. apply ap_frame.
+        apply (wr_ok_not_under (pre ++ [false]) (pre ++ [true]) w1 q A4 Hq). intros c C1 C2.
+        exact (is_prefix_split pre false true c ltac:(discriminate) C1 C2). }
+      repeat split; try assumption.
+      - apply RepA_node; [exact H2|]. exists l1, r1. split; [unfold t3; rewrite Hd; reflexivity|]. split.
+        + rewrite M0_mrg. exact (SlotA_ext _ _ h' _ l1 _ HviewL A5).
+        + rewrite M1_mrg. exact (SlotA_ext _ _ h' _ r1 _ HviewR B5).
+      - intros Hr. subst isroot. unfold wroot. rewrite !ap_app. apply ap_single_same.
+    Qed.
+
+    Definition cont (h' : nat) (pre : list bool) (isroot : bool) (lv0 : list (key * V)) (s0 : option slot) (l0 r0 : bt)
+      : option (res D V) :=
+      match lv0, s0 with
+      | [(k, v)], None =>
+          let d := H (YLeaf v (pre, S h')) in
+          let t1 := shortcut_at D V (BNode D V s0 l0 r0) d k v in
+          Some (d, t1, if Nat.eqb (S h' mod 4) 0 then [WStore D V (pre, S h') t1] else [])
+      | _, _ => innerW (nodeW h') false h' pre isroot lv0 l0 r0
+      end.
+
+    Definition sel (L : list (key * V)) (s : option slot) (l r : bt) : list (key * V) * option slot * bt * bt :=
+      match s, rslot l, rslot r with
+      | Some (SLeaf _ _ _), Some (SKey _ _ k), Some (SVal _ _ v) =>
+          (merge_stored V L k v, None, set_root l None, set_root r None)
+      | _, _, _ => (L, s, l, r)
+      end.
+
+    Lemma node_S h' pre L s l r isroot :
+      nodeW (S h') false pre L (BNode D V s l r) isroot =
+      cont h' pre isroot (fst (fst (fst (sel L s l r)))) (snd (fst (fst (sel L s l r)))) (snd (fst (sel L s l r))) (snd (sel L s l r)).
+    Proof.
+      unfold sel. cbn [node].
+      destruct s as [[d|d|k|v]|]; try reflexivity.
+      destruct (rslot l) as [[d1|d1|k1|v1]|]; try reflexivity.
+      destruct (rslot r) as [[d2|d2|k2|v2]|]; reflexivity.
+    Qed.
+
+    Lemma sel_none L l r : sel L None l r = (L, None, l, r).
+    Proof. reflexivity. Qed.
+    Lemma sel_hash L d l r : sel L (Some (SHash D V d)) l r = (L, Some (SHash D V d), l, r).
+    Proof. reflexivity. Qed.
+    Lemma sel_leaf L d l r k v : rslot l = Some (SKey D V k) -> rslot r = Some (SVal D V v) ->
+      sel L (Some (SLeaf D V d)) l r = (merge_stored V L k v, None, set_root l None, set_root r None).
+    Proof. intros Hl Hr. unfold sel. rewrite Hl, Hr. reflexivity. Qed.
+
+    Lemma slot_of_empty h' pre' ct : all_none ct -> (forall q, under pre' q -> all_none (sA0 q)) -> SlotA sA0 h' pre' ct [].
+    Proof.
+      intros Hn He. unfold SlotA. destruct (Nat.eqb (h' mod 4) 0); [split; assumption|]. apply RepA_nil. split; assumption.
+    Qed.
+
+    Lemma from_empty h' pre isroot lvs l0 r0 :
+      child_spec h' ->
+      S h' + length pre = nbits -> S h' <= limit ->
+      (isroot = true -> S h' mod 4 = 0) -> (isroot = false -> S h' mod 4 <> 0) ->
+      complete (lv h') l0 -> complete (lv h') r0 -> all_none l0 -> all_none r0 ->
+      (forall b q, under (pre ++ [b]) q -> all_none (sA0 q)) ->
+      lvs <> [] -> keys_ok pre lvs -> NoDup (map fst lvs) ->
+      exists d t' w, cont h' pre isroot lvs None l0 r0 = Some (d, t', w) /\
+        d = sh (S h') pre lvs /\ complete (if isroot then 5 else lv (S h')) t' /\ wr_ok pre w /\
+        RepA (ap sA0 w) (S h') pre t' lvs /\ (isroot = true -> ap sA0 w (pre, S h') = t').
+    Proof.
+      intros Hch Hlen Hlim Hr1 Hr2 Hcl Hcr Hnl Hnr He Hne HkL HnL.
+      assert (Hct : forall x y z, complete (if isroot then 5 else lv (S h')) (BNode D V x (set_root l0 y) (set_root r0 z))).
+      { intros x y z. destruct isroot.
+        - pose proof (lv_child_root h' (Hr1 eq_refl)) as E4. rewrite E4 in Hcl, Hcr.
+          change (complete 4 (set_root l0 y) /\ complete 4 (set_root r0 z)). split; apply complete_set_root; assumption.
+        - rewrite (lv_child_inner h' (Hr2 eq_refl)).
+          change (complete (lv h') (set_root l0 y) /\ complete (lv h') (set_root r0 z)). split; apply complete_set_root; assumption. }
+      destruct lvs as [|[k v] [|y rest]]; [contradiction| |].
+      - (* one leaf into an empty subtree: a shortcut leaf in this slot *)
+        unfold cont. cbv zeta.
+        set (d := H (YLeaf v (pre, S h'))).
+        set (t1 := shortcut_at D V (BNode D V None l0 r0) d k v).
+        exists d, t1, (if Nat.eqb (S h' mod 4) 0 then [WStore D V (pre, S h') t1] else []).
+        split; [reflexivity|]. split; [symmetry; apply sh_single; exact Hlim|].
+        assert (Hc1 : complete (if isroot then 5 else lv (S h')) t1) by (unfold t1; cbn [shortcut_at]; apply Hct).
+        split; [exact Hc1|].
+        assert (Hw : wr_ok pre (if Nat.eqb (S h' mod 4) 0 then [WStore D V (pre, S h') t1] else [])).
+        { destruct (Nat.eqb (S h' mod 4) 0) eqn:Hb; [|constructor]. apply Nat.eqb_eq in Hb.
+          constructor; [|constructor]. split; [unfold under; cbn; apply is_prefix_refl|].
+          destruct isroot; [exact Hc1|]. exfalso. exact (Hr2 eq_refl Hb). }
+        split; [exact Hw|]. split.
+        + apply RepA_single. split.
+          * unfold t1. cbn [shortcut_at]. eexists. eexists. split; [reflexivity|].
+            assert (Hl1 : exists n, complete (S n) l0) by (exists (h' mod 4); unfold lv in Hcl; rewrite Nat.add_1_r in Hcl; exact Hcl).
+            assert (Hr1' : exists n, complete (S n) r0) by (exists (h' mod 4); unfold lv in Hcr; rewrite Nat.add_1_r in Hcr; exact Hcr).
+            destruct Hl1 as [n1 Hl1]. destruct Hr1' as [n2 Hr1'].
+            rewrite (rslot_set_root l0 _ n1 Hl1), (rslot_set_root r0 _ n2 Hr1').
+            repeat split; apply below_none_set_root, all_none_below; assumption.
+          * intros b q Hq. destruct (Nat.eqb (S h' mod 4) 0).
+            -- rewrite ap_single_other; [exact (He b q Hq)|]. intros ->. exact (not_under_self pre (S h') b Hq).
+            -- exact (He b q Hq).
+        + intros Hr. subst isroot. rewrite (proj2 (Nat.eqb_eq _ _) (Hr1 eq_refl)). apply ap_single_same.
+      - (* two or more leaves: an inner node over two empty children *)
+        unfold cont.
+        assert (Hsl : forall b ct, all_none ct -> SlotA sA0 h' (pre ++ [b]) ct []).
+        { intros b ct Hn. apply slot_of_empty; [exact Hn|]. intros q Hq. exact (He b q Hq). }
+        destruct (inner_ok h' pre isroot ((k, v) :: y :: rest) l0 r0 [] Hch Hlen Hlim Hr1 Hr2 Hcl Hcr
+                    (Hsl false l0 Hnl) (Hsl true r0 Hnr) HkL HnL ltac:(constructor) ltac:(constructor) ltac:(cbn; lia))
+          as (d & t' & w & A1 & A2 & A3 & A4 & A5 & A6).
+        exists d, t', w. rewrite mrg_nil_l in *. repeat split; assumption.
+    Qed.
+
+    Lemma merge_stored_mrg L k0 v0 : merge_stored V L k0 v0 = mrg [(k0, v0)] L.
+    Proof.
+      unfold merge_stored, mrg. cbn [filter fst]. change (existsb (fun kv : key * V => key_eqb (fst kv) k0) L) with (inb k0 L).
+      destruct (inb k0 L); reflexivity.
+    Qed.
+
+    Lemma complete_children isroot h' s l r :
+      (isroot = true -> S h' mod 4 = 0) -> (isroot = false -> S h' mod 4 <> 0) ->
+      complete (if isroot then 5 else lv (S h')) (BNode D V s l r) -> complete (lv h') l /\ complete (lv h') r.
+    Proof.
+      intros Hr1 Hr2 Hc. destruct isroot.
+      - rewrite (lv_child_root h' (Hr1 eq_refl)). exact Hc.
+      - rewrite (lv_child_inner h' (Hr2 eq_refl)) in Hc. exact Hc.
+    Qed.
+
+    Lemma node_of_child h' : child_spec h' -> node_spec (S h').
+    Proof.
+      intros Hch pre L t isroot M Hlen Hlim Hr1 Hr2 Hc HR Hne HkL HnL HkM HnM.
+      destruct t as [|s l r]; [destruct isroot; cbn in Hc; try contradiction; unfold lv in Hc; rewrite Nat.add_1_r in Hc; contradiction|].
+      destruct (complete_children isroot h' s l r Hr1 Hr2 Hc) as [Hcl Hcr].
+      rewrite node_S.
+      destruct M as [|[k0 v0] [|y M2]].
+      - (* nothing stored below this slot *)
+        apply RepA_nil in HR. destruct HR as [(Hs & Hnl & Hnr) He]. subst s. rewrite sel_none. cbn [fst snd].
+        assert (He' : forall b q, under (pre ++ [b]) q -> all_none (sA0 q)).
+        { intros b q Hq. apply He. unfold under in *. apply (is_prefix_app pre [b]). exact Hq. }
+        rewrite mrg_nil_l.
+        exact (from_empty h' pre isroot L l r Hch Hlen Hlim Hr1 Hr2 Hcl Hcr Hnl Hnr He' Hne HkL HnL).
+      - (* a shortcut leaf is stored here: it is pushed down together with the new leaves *)
+        apply RepA_single in HR. destruct HR as [(l' & r' & Heq & Hrl & Hrr & Hbl & Hbr) He].
+        injection Heq as -> -> ->. rewrite (sel_leaf L _ l' r' k0 v0 Hrl Hrr). cbn [fst snd].
+        rewrite merge_stored_mrg.
+        assert (Hne' : mrg [(k0, v0)] L <> []).
+        { destruct L as [|x L']; [contradiction|]. apply mrg_cons_ne. }
+        exact (from_empty h' pre isroot (mrg [(k0, v0)] L) (set_root l' None) (set_root r' None) Hch Hlen Hlim Hr1 Hr2
+                 (complete_set_root _ l' None Hcl) (complete_set_root _ r' None Hcr)
+                 (below_none_reset l' Hbl) (below_none_reset r' Hbr) He Hne'
+                 (keys_ok_mrg pre _ L HkM HkL) (nodup_mrg _ L HnM HnL)).
+      - (* an inner node *)
+        apply RepA_node in HR; [|cbn; lia]. destruct HR as (l' & r' & Heq & Hsl & Hsr). injection Heq as -> -> ->.
+        assert (Hcont : forall dd, cont h' pre isroot L (Some (SHash D V dd)) l' r' =
+                        innerW (nodeW h') false h' pre isroot L l' r').
+        { intros dd. unfold cont. destruct L as [|[k v] [|z L']]; reflexivity. }
+        rewrite sel_hash. cbn [fst snd]. rewrite Hcont.
+        apply (inner_ok h' pre isroot L l' r' ((k0, v0) :: y :: M2) Hch Hlen Hlim Hr1 Hr2 Hcl Hcr Hsl Hsr HkL HnL HkM HnM).
+        pose proof (length_mrg_ge ((k0, v0) :: y :: M2) L HnM HnL) as [Hge _]. cbn in Hge. cbn. lia.
+    Qed.
+
+    (* every height from 1 up to the limit *)
+    Theorem walk_below_cache : forall h, 0 < h -> node_spec h.
+    Proof.
+      assert (Hall : forall h, (h = 0 \/ node_spec h)).
+      { induction h as [|h IH]; [left; reflexivity|]. right. apply node_of_child. apply child_of_node. exact IH. }
+      intros h Hh. destruct (Hall h) as [->|Hn]; [lia|exact Hn].
+    Qed.
+
+    Theorem child_below_cache : forall h', child_spec h'.
+    Proof.
+      intros h'. apply child_of_node. destruct h' as [|h'']; [left; reflexivity|right; apply walk_below_cache; lia].
+    Qed.
+  End WalkA.
 End HyperRefine.
